@@ -288,7 +288,7 @@ func c05RunConfig(r *ev.Result, base string, idx int, cfg c05Config, cache strin
 
 func c05(r *ev.Result, tier string) {
 	quick := isQuick(tier)
-	listens := []string{"127.0.0.1:0", "127.0.0.1", "[::1]:0", "::1", "0.0.0.0:0", "[::]:0"}
+	listens := []string{"127.0.0.1:0", "127.0.0.1", "[::1]:0", "::1", "0.0.0.0:0", "[::]:0", "localhost:0", "localhost"}
 	callbacks := [][]string{nil, {"cb.example"}, {"cb.example:9999"}, {"cb.example", "other.example:8443"}, {"2001:db8::1"}, {"192.0.2.77"}, {"high.example:50443", "[2001:db8::2]:65535"},
 		/* The same address twice; the loopback addresses themselves (equal
 		to the listen address, or one of the box's own, once the port is
